@@ -584,7 +584,7 @@ def p_responses(h, d):
     return body()
 
 
-def make_keys_plan(seed, nkeys=3, dup=False, use_wrapper=False, sparse=False):
+def make_keys_plan(seed, nkeys=3, dup=False, use_wrapper=False, sparse=False, run_keys=None, outer_key=None):
     """nested / interleaved runs with run keys K0..Kn-1; run Ki only ever reads detector kdet<i>."""
     import random
 
@@ -607,9 +607,10 @@ def make_keys_plan(seed, nkeys=3, dup=False, use_wrapper=False, sparse=False):
             idx[k] += 1
 
         def one(step, k):
-            key = f"K{k}"
+            label = f"K{k}"
+            key = run_keys[k] if run_keys is not None else label      # (run keys may be any hashable, also falsy ones)
             if step == "open":
-                yield Msg("open_run", run=key, key=key)
+                yield Msg("open_run", run=key, key=label)
                 if not sparse:
                     yield Msg("checkpoint")
                 else:
@@ -634,7 +635,7 @@ def make_keys_plan(seed, nkeys=3, dup=False, use_wrapper=False, sparse=False):
             opened = set()
             for pos, (step, k) in enumerate(order):
                 if use_wrapper and step == "point":
-                    yield from bpp.set_run_key_wrapper(_strip_key(one(step, k)), f"K{k}")
+                    yield from bpp.set_run_key_wrapper(_strip_key(one(step, k)), run_keys[k] if run_keys is not None else f"K{k}")
                 else:
                     yield from one(step, k)
                 if step == "open":
@@ -654,6 +655,9 @@ def make_keys_plan(seed, nkeys=3, dup=False, use_wrapper=False, sparse=False):
                         P(h, "dup-open-rejected", kk, e)
             P(h, "body-complete")
 
+        if outer_key is not None:
+            # an enclosing wrapper with another key: it may only fill in messages that carry NO key
+            return bpp.set_run_key_wrapper(body(), outer_key)
         return body()
 
     return builder
@@ -692,6 +696,8 @@ CORPUS = {
     "keys_wrap": make_keys_plan(5, 3, use_wrapper=True),
     "keys_dup2": make_keys_plan(6, 2, dup=True),
     "keys_sparse": make_keys_plan(7, 3, sparse=True),
+    "keys_falsy": make_keys_plan(9, 3, use_wrapper=True, run_keys=[0, "", "K2"], outer_key="OUT"),
+    "keys_falsy2": make_keys_plan(10, 2, run_keys=[(), False], outer_key="OUT"),
     "keys_sparse2": make_keys_plan(8, 2, sparse=True),
     "clearcp0": make_clearcp(0),
     "clearcp1": make_clearcp(1),
